@@ -147,7 +147,7 @@ class Monitor(object):
             self.ev = ev
             self.step_ctx = {"stray": False, "expect_kill": None, "expect_C": [], "expect_M": None, "more_targets": set(),
                              "wellformed_pw_for": None, "step_queried": set(), "target": None, "saw_C": [], "saw_M": [],
-                             "saw_verdict": {}, "saw_U": [], "expect_unlinked_notice": None, "decided_now": []}
+                             "saw_verdict": {}, "saw_U": [], "expect_unlinked_notice": None, "decided_now": [], "named": set()}
             self.apply_input(ev)
             for ln in out:
                 if ln.startswith("#verif"):
@@ -302,8 +302,12 @@ class Monitor(object):
             self.v("C04", "stray-output", "a stray reply (%s) produced output: %r" % (proto.render(self.ev), ln))
         if c["kind"] == "client":
             self.stats["client_lines"] += 1
+            ctx["named"].add(c["id"])
             self.on_client_line(c, ln)
         elif c["kind"] == "xquery":
+            pt_ = proto.parse_tag(c["tag"])
+            if pt_:
+                ctx["named"].add(pt_[0])
             self.on_query(c, ln)
         elif c["kind"] == "global" and c["cmd"] == "S" and ctx.get("stats"):
             m = re.match(r"^iauth :(\d+)-(\d+) reqs alloc, (\d+) in use", c["text"])
@@ -506,7 +510,17 @@ class Monitor(object):
             if ctx["target"] is not None and ctx["target"].id in self.open:
                 self.v("C06", "more-not-forwarded", "client %d answered the challenge of %s but no MORE query was sent" % (ctx["target"].id, svc))
         # C03 / C06 per open instance
-        for cid, i in list(self.open.items()):
+        # an instance's conditions only change in steps that concern it (its own event, a reply
+        # addressed to it, or output about it), so only those are re-evaluated
+        touched = {}
+        if ctx["target"] is not None:
+            touched[ctx["target"].id] = ctx["target"]
+        for cid in ctx["named"]:
+            if cid in self.open:
+                touched[cid] = self.open[cid]
+        for cid, i in touched.items():
+            if self.open.get(cid) is not i:
+                continue
             self.stats["stuck_evaluations"] += 1
             for svc, protoname in self.cfg.services:
                 if i.queried.get(svc, 0) == 0 and self.prereq(i, protoname):
